@@ -33,8 +33,8 @@ AAdd(i, ext, cs, mg, via) ==
   LET r == IF via = "prefix" THEN AddPrefix(convs[i], ext, cs, mg) ELSE AddRecord(convs[i], ext, cs, mg) IN
   /\ hist' = Append(hist, [k |-> "add", i |-> i, rec |-> ext, cs |-> cs, mg |-> mg, via |-> via])
   /\ last' = r.out
-  /\ sigs' = Append(sigs, <<"add", r.out[1], Cardinality(MatchIdx(convs[i], ext, cs)), cs, mg, MatchKinds(convs[i], ext, cs),
-                            ext.ps # {} \/ ext.us # {}, HasEmpty(<<ext>>)>>)
+  /\ sigs' = Append(sigs, <<"add", r.out[1], IF Cardinality(MatchIdx(convs[i], ext, cs)) > 1 THEN 2 ELSE Cardinality(MatchIdx(convs[i], ext, cs)),
+                            cs, mg, MatchKinds(convs[i], ext, cs)>>)
   /\ convs' = [convs EXCEPT ![i] = r.conv]
 
 \* chain([convs[i] : i in is], case_sensitive=cs)
@@ -43,7 +43,8 @@ AChain(is, cs) ==
   /\ hist' = Append(hist, [k |-> "chain", is |-> is, cs |-> cs])
   /\ last' = r.out
   /\ sigs' = Append(sigs, <<"chain", r.out[1], cs, Len(is),
-                            IF r.out = Ok THEN Len(ConcatRecs([k \in 1..Len(is) |-> convs[is[k]]])) - Len(r.conv.recs) ELSE 0>>)
+                            IF r.out = Ok THEN Len(ConcatRecs([k \in 1..Len(is) |-> convs[is[k]]])) - Len(r.conv.recs) ELSE 0,
+                            ChainKinds(EmptyConv(DefaultDelim), ConcatRecs([k \in 1..Len(is) |-> convs[is[k]]]), cs)>>)
   /\ convs' = IF r.out = Ok THEN Append(convs, r.conv) ELSE convs
 
 ASub(i, P) ==
